@@ -178,6 +178,7 @@ type Exec struct {
 	obs         []obsRec
 	arrayMode   bool
 	obligation  bool
+	vfsState    *vfs
 	noMerge     bool
 	portfolioWins map[string]int
 	pcSet       map[*Term]bool
